@@ -185,7 +185,7 @@ func tycTerm(fc *validate.FieldConstraints) (string, *validate.FieldConstraints)
 				return "COther", nil
 			}
 		}
-		return fmt.Sprintf("(CStr %s %s %s %s)", coqOptU64(s.MinLen), coqOptU64(s.MaxLen), coqOptStr(s.Pattern), vh.BoolTerm(uuid)),
+		return fmt.Sprintf("(CStr %s %s %s %s)", coqOptU64(s.MinLen), coqOptU64(s.MaxLen), optRunes(s.Pattern), vh.BoolTerm(uuid)),
 			&validate.FieldConstraints{Type: &validate.FieldConstraints_String_{String_: r}}
 	case *validate.FieldConstraints_Bytes:
 		return fmt.Sprintf("(CBytes %s %s)", coqOptU64(t.Bytes.MinLen), coqOptU64(t.Bytes.MaxLen)),
@@ -345,7 +345,7 @@ func extTerm(fd protoreflect.FieldDescriptor) string {
 		f := "None"
 		switch kt := t.Key.Type.(type) {
 		case *ext_j5pb.KeyField_Pattern:
-			f = "(Some (KCustom " + vh.BytesTerm(kt.Pattern) + "))"
+			f = "(Some (KCustom " + vh.RunesTerm(kt.Pattern) + "))"
 			kf.Type = &ext_j5pb.KeyField_Pattern{Pattern: kt.Pattern}
 		case *ext_j5pb.KeyField_Format_:
 			switch kt.Format {
